@@ -184,3 +184,33 @@ pub fn run(seed: u64, tier: &str, out: &mut Out) {
         out.emit(&case, &format!("{} ORACLE {verdict}", obs.join(" ")));
     }
 }
+
+/// C09 with a steady ticker: the ticker thread feeds the estimator; progress is steady in (virtual) time, so the
+/// reported rate must be the true rate, whatever the real-time cadence of the ticks (10 % tolerance: a tick may fall
+/// between the harness advancing the clock and incrementing the position).
+pub fn run_ticker(seed: u64, tier: &str, out: &mut Out) {
+    let mut rng = Rng::new(seed ^ 0x0909);
+    let runs = if tier == "thorough" { 40 } else { 6 };
+    for _ in 0..runs {
+        vh::set_auto_advance_ns(0); vh::set_now_ns(T0);
+        let step_ms = *rng.pick(&[50u64, 100, 200]);
+        let per_step = *rng.pick(&[1u64, 5, 20]);
+        let tick_ms = *rng.pick(&[1u64, 2, 5]);
+        let suspend_first = rng.chance(1, 2);
+        let pb = ProgressBar::hidden();
+        pb.set_length(1_000_000);
+        pb.enable_steady_tick(std::time::Duration::from_millis(tick_ms));
+        // something that holds the bar for a while in real time, then forget the history
+        if suspend_first { pb.suspend(|| std::thread::sleep(std::time::Duration::from_millis(30))); pb.reset_eta(); }
+        let steps = 60;
+        for _ in 0..steps { vh::advance_ns(step_ms * 1_000_000); pb.inc(per_step); std::thread::sleep(std::time::Duration::from_millis(3)); }
+        std::thread::sleep(std::time::Duration::from_millis(10));
+        let rate = pb.per_sec();
+        let truth = per_step as f64 * 1000.0 / step_ms as f64;
+        pb.disable_steady_tick();
+        if std::env::var("VERIF_TRACE").is_ok() { eprintln!("rate {rate} truth {truth}"); }
+        let verdict = if !(rate.is_finite()) || rate < truth * 0.9 || rate > truth * 1.1 { format!("FAIL ticker-rate steady progress of {truth}/s (virtual time) reported as {rate}/s with a steady tick every {tick_ms} ms") } else { "ok".into() };
+        out.emit(&format!("NOMODEL TICKERRATE step_ms={step_ms} per_step={per_step} tick_ms={tick_ms} suspend_first={suspend_first}"), &format!(" ORACLE {verdict}"));
+        pb.abandon();
+    }
+}
